@@ -468,7 +468,7 @@ Definition lrange_list (l : list bytes) (start stop : Z) : list bytes :=
   let start := if start <? 0 then n + start else start in
   let stop := if stop <? 0 then n + stop else stop in
   let start := if start <? 0 then 0 else start in
-  if stop <? start then [] else slice l start (Z.min stop (n - 1)).
+  if (stop <? start) || (n <=? start) then [] else slice l start (Z.min stop (n - 1)).
 
 Definition cmd_lrange (now : Z) (d : db) (args : list bytes) : res :=
   match args with
